@@ -128,7 +128,7 @@ struct Attrs : Profile {
             int64_t kind = (int64_t)r.below(NKINDS), obj = (int64_t)r.below(2), sub = (int64_t)r.below(2);
             switch (k) {
                 case 0:
-                    p.ops.push_back(mkop(0, names[k], {kind, obj, sub, (int64_t)r.below(NNAMES), (int64_t)r.below(NAT), cnt(), (int64_t)(r.next() >> 16)}));
+                    p.ops.push_back(mkop(0, names[k], {kind, obj, sub, (int64_t)r.below(NNAMES), (int64_t)r.below(NAT), cnt(), (int64_t)(r.next() >> 16), r.chance(0.2) ? 1 : 0})); // last: stored low byte first (Vdata/Vgroup attributes)
                     break;
                 case 1:
                     p.ops.push_back(mkop(0, names[k], {kind, obj, sub}));
@@ -443,7 +443,7 @@ struct Attrs : Profile {
             int32        nt = 0, cnt = 0;
             if (a_info(r, (int32)i, nm, &nt, &cnt) == FAIL)
                 ctx.fail("attr-info", strf("attr-info:kind%d", r.kind), strf("attribute %zu of %s: info call failed (%s)", i, r.what.c_str(), when));
-            if (a.name != nm || (nt & 0xfff) != (a.type & 0xfff) || cnt != a.count)
+            if (a.name != nm || (nt & 0x4fff) != (a.type & 0x4fff) || cnt != a.count)
                 ctx.fail("attr-mismatch", strf("attr-mismatch:info:kind%d", r.kind),
                          strf("attribute %zu of %s is '%s' type %d count %d; model '%s' type %d count %d (%s)", i, r.what.c_str(), nm, (int)nt,
                               (int)cnt, a.name.c_str(), (int)a.type, (int)a.count, when));
@@ -656,8 +656,25 @@ struct Attrs : Profile {
                     done = false;
                 else {
                     const char *nm = NAMES[modn(o.arg(3), NNAMES)];
-                    const AT   &t  = ATS[modn(o.arg(4), NAT)];
+                    AT          t  = ATS[modn(o.arg(4), NAT)];
+                    // Vdata and Vgroup attributes also with the little-endian variant of the type: for a re-set that is
+                    // another type (refused, the old value stays), for a new attribute it is the type reported afterwards
+                    if (o.arg(7) == 1 && kind >= K_VS && t.size > 1) {
+                        t.code |= DFNT_LITEND;
+                        ctx.probe("little-endian-attr");
+                    }
                     int32       cnt = (int32)std::max<int64_t>(1, o.arg(5));
+                    if (o.arg(7) == 1 && kind >= K_VS && r.m->find(nm) >= 0) {
+                        // directed: the attribute exists -- same count, same type but for the byte order
+                        const auto &oa = r.m->at[(size_t)r.m->find(nm)];
+                        for (int q = 0; q < NAT; q++)
+                            if (ATS[q].code == (oa.type & 0xfff) && ATS[q].size > 1) {
+                                t      = ATS[q];
+                                t.code = (oa.type & 0x4fff) ^ DFNT_LITEND;
+                                cnt    = oa.count;
+                                ctx.probe("reset-other-byte-order");
+                            }
+                    }
                     std::vector<uint8_t> v((size_t)cnt * (size_t)t.size);
                     for (int32 q = 0; q < cnt; q++)
                         avalue(t, (uint64_t)o.arg(6), (uint64_t)q, v.data() + (size_t)q * (size_t)t.size);
@@ -669,7 +686,7 @@ struct Attrs : Profile {
                     }
                     intn rc  = a_set(r, nm, t.code, cnt, v.data());
                     ctx.tr((uint64_t)rc);
-                    bool same_shape = old >= 0 && (r.m->at[(size_t)old].type & 0xfff) == t.code && r.m->at[(size_t)old].count == cnt;
+                    bool same_shape = old >= 0 && (r.m->at[(size_t)old].type & 0x4fff) == t.code && r.m->at[(size_t)old].count == cnt;
                     if (rc == FAIL) {
                         if (old < 0 || same_shape)
                             ctx.fail("set-refused", strf("set-refused:kind%d:%s", kind, old < 0 ? "new" : "same-shape"),
